@@ -127,15 +127,16 @@ not re-read the channel version; it answers "pending" until the notification arr
 tokio delivers the notifications of one `send` to different receivers at different moments
 (`watch` spreads receivers over several `Notify` cells and walks them in turn, after bumping
 the version).  So while updates are in flight a `pend` only says "no wake-up yet", not "no
-update yet", and is no evidence about the order of operations: such records are left out of
-the search.  Once every task has finished (all `send`s have returned, hence all wake-ups have
-been delivered) a `pend` is a real answer: the drain records are kept, each in its own window. -/
-def mkCalls : List Op → List (Nat × Nat × Resp) → Nat → List Lin.Call
+update yet", and is no evidence about the order of operations: a `pend` whose window overlaps
+the window of any `set`/`clear` call (`upd`) is left out of the search.  A `send` returns only
+after its wake-ups have been delivered, so every other `pend` — in particular every one in the
+final drain — is a real answer and is kept, in its own window. -/
+def mkCalls (upd : List (Nat × Nat)) : List Op → List (Nat × Nat × Resp) → Nat → List Lin.Call
   | _, [], _ => []
   | ops, (i, r, a) :: recs, subAt =>
-    let (op, ops', drain) := match ops with
-      | [] => (Op.next 0, [], true)
-      | o :: os => (o, os, false)
+    let (op, ops') := match ops with
+      | [] => (Op.next 0, [])
+      | o :: os => (o, os)
     let inv := match op, a with
       | .next _, .pending => i
       | .next _, _ => min i subAt
@@ -144,19 +145,26 @@ def mkCalls : List Op → List (Nat × Nat × Resp) → Nat → List Lin.Call
       | .watch _ => r
       | _ => subAt
     let skip := match op, a with
-      | .next _, .pending => !drain
+      | .next _, .pending => upd.any (fun u => u.1 < r && i < u.2)
       | _, _ => false
-    if skip then mkCalls ops' recs subAt'
-    else ⟨op, inv, r, a⟩ :: mkCalls ops' recs subAt'
+    if skip then mkCalls upd ops' recs subAt'
+    else ⟨op, inv, r, a⟩ :: mkCalls upd ops' recs subAt'
 
 def handleConc (progs : List (List Op)) (obs : List String) : String × String :=
   if obs == ["panic"] then ("not-linearizable", "fail:panic")
   else match parseRecs (obs.length + 1) obs with
     | none => ("not-linearizable", "fail:unrecognised-answer")
     | some recs =>
+      -- windows of all update calls, over all tasks
+      let upd : List (Nat × Nat) := (progs.zipIdx).flatMap (fun (ops, tid) =>
+        let mine := (recs.filter (fun x => x.1 == tid)).map (·.2)
+        (ops.zip mine).filterMap (fun (op, (i, r, _)) => match op with
+          | .set _ _ => some (i, r)
+          | .clear _ => some (i, r)
+          | _ => none))
       let tasks : List Lin.Task := (progs.zipIdx).map (fun (ops, tid) =>
         let mine := (recs.filter (fun x => x.1 == tid)).map (·.2)
-        ⟨mkCalls ops mine 0, Lin.noSlot⟩)
+        ⟨mkCalls upd ops mine 0, Lin.noSlot⟩)
       let short := (progs.zipIdx).any (fun (ops, tid) =>
         (recs.filter (fun x => x.1 == tid)).length < ops.length)
       if short then ("not-linearizable", "fail:answer-count")
